@@ -68,7 +68,7 @@ class World:
             return (repr(f"text {self.counter} é\n"), None)
         if k == "bytes":
             return (repr(b"\x00bin %d" % self.counter), None)
-        return (repr(f"log {self.counter}"), self.rng.choice([".log", ".json", ".png"]))
+        return (repr(f"log {self.counter}"), self.rng.choice([".log", ".json", ".png", ".tar.gz", ".min.js"]))  # multi-part suffixes are rejected by the tool: nothing may reference them
 
     def add_test(self, fname, payload=None):
         self.counter += 1
@@ -213,7 +213,7 @@ def run_history(rng, args, out, C, hidx, script=None):
             # I1 names are content hashes
             for name, data in after.items():
                 C["stored_files_checked"] += 1
-                stem, _, ext = name.rpartition(".")
+                stem = name.split(".", 1)[0]  # the suffix may have several parts (.tar.gz)
                 h = stem[:-4] if stem.endswith("-new") else stem
                 if h != sha(data):
                     out["violations"].append({"kind": "stored-file-name-is-not-the-sha256-of-its-bytes", "detail": {**base, "name": name, "sha256": sha(data)}, "witness": wit, "finding": None})
